@@ -70,7 +70,20 @@ Theorem C03_never_truncates_same_section : forall ops id r lo,
 Proof. exact never_truncates_same_section. Qed.
 Print Assumptions C03_never_truncates_same_section.
 
-(* reporting: bind returns InvalidDisplacement only while leaving a fixup pending; a refused instruction changes nothing *)
+(* reporting (behaviour since fix 6b578fc): bind_label checks the displacements of the label's same-section fixups BEFORE binding; a bind
+   that is refused (InvalidDisplacement, already bound, invalid label) is a NO-OP: the label stays unbound, every fixup stays pending
+   and untouched, the counter is unchanged - so nothing can be truncated by a refused bind, and an accepted bind reports nothing *)
+Theorem C03_bind_refused_no_change : forall s l, inv s ->
+  snd (step s (OBind l)) <> EOk -> fst (step s (OBind l)) = s.
+Proof. exact bind_refused_no_change. Qed.
+Print Assumptions C03_bind_refused_no_change.
+
+Theorem C03_bind_refused_iff : forall s l, nth_error (labels s) l = Some None ->
+  (snd (step s (OBind l)) = EInvalidDisp /\ fst (step s (OBind l)) = s) \/
+  bind_precheck l (cur s) (s_len (cur_sec s)) (pending s) (refs s) = true.
+Proof. exact bind_refused_iff. Qed.
+Print Assumptions C03_bind_refused_iff.
+
 Theorem C03_bind_error_means_pending : forall s l,
   snd (step s (OBind l)) = EInvalidDisp -> pending (fst (step s (OBind l))) <> [].
 Proof. exact bind_error_means_pending. Qed.
